@@ -42,7 +42,8 @@ func VerifC11_SafeKeys() {
 	verifAssume(len(val) <= 8)
 	verifAssume(verifNot(strings.Contains(val, "\n")))
 	text := key + "=" + val
-	switch verifChoose("second.line", 3) {
+	preRemotes := 0
+	switch verifChoose("second.line", 5) {
 	case 1: // the same key once more
 		val2 := verifNondetString("val2")
 		verifAssume(len(val2) <= 8)
@@ -50,6 +51,11 @@ func VerifC11_SafeKeys() {
 		text += "\n" + key + "=" + val2
 	case 2: // a documented key before it
 		text = "lfs.url=https://example.com\n" + text
+	case 3: // a documented key of the wildcard families before it
+		text = "lfs.https://example.com/x.git.access=basic\n" + text
+	case 4:
+		text = "remote.origin.lfsurl=https://example.com/lfs\n" + text
+		preRemotes = 1
 	}
 	src := git.ParseConfigLines(text, true)
 	verifAssert(src.OnlySafeKeys, "a source parsed as safe-only is marked so")
@@ -68,7 +74,7 @@ func VerifC11_SafeKeys() {
 			extSet = true
 		}
 	}
-	effect := stored || extSet || len(remotes) > 0
+	effect := stored || extSet || len(remotes) > preRemotes
 	if effect {
 		verifCover("effect")
 		verifAssert(verifInLDoc(key), "a .lfsconfig key that takes effect is on the documented allow-list")
